@@ -1,6 +1,8 @@
 package main
 
 import (
+	"runtime"
+	"runtime/pprof"
 	"encoding/json"
 	"flag"
 	"fmt"
@@ -166,6 +168,13 @@ func main() {
 			}
 			c := runScenario(f, idx, *seed, *tier, *prop, rep, false)
 			rep.Evaluations++
+			if hp := os.Getenv("VERIF_HEAPPROF"); hp != "" && rep.Evaluations%50 == 0 {
+				runtime.GC()
+				if fh, err := os.Create(hp); err == nil {
+					_ = pprof.WriteHeapProfile(fh)
+					fh.Close()
+				}
+			}
 			rep.Families[f.Name]++
 			vs := collect(c)
 			account(c, rep)
